@@ -485,6 +485,8 @@ val natural :
   (dtype -> pyval -> pyval outcome) -> (pyval list -> dtype) -> operand ->
   ((dtype * nat list) * pyval list) outcome
 
+val commit : var -> (pyval list * exn option) -> var * exn option
+
 val assign_inplace :
   (dtype -> pyval -> pyval outcome) -> (dtype -> dtype -> pyval -> pyval
   outcome) -> var -> nat list -> operand -> var * exn option
@@ -533,6 +535,8 @@ val add_attribute :
   outcome) -> (pyval list -> dtype) -> char list -> operand -> state -> res
 
 val alternatives : char list option -> char list list -> char list list
+
+val is_property : ckind -> char list -> bool
 
 val setattr :
   (dtype -> pyval -> pyval outcome) -> (dtype -> dtype -> pyval -> pyval
@@ -661,6 +665,10 @@ val resolve_op : aobj -> op -> op
 
 val alias_read : aobj -> query -> state -> state * qval outcome
 
+val dict_key : state -> char list -> bool
+
+val alias_clash : char list list -> aobj -> state -> bool
+
 val gen_alias_step :
   (dtype -> pyval -> pyval outcome) -> (dtype -> dtype -> pyval -> pyval
   outcome) -> (pyval list -> dtype) -> (dtype -> pyval list -> dreq -> dtype)
@@ -669,14 +677,14 @@ val gen_alias_step :
 val gen_alias_init_model :
   (dtype -> pyval -> pyval outcome) -> (dtype -> dtype -> pyval -> pyval
   outcome) -> (pyval list -> dtype) -> (dtype -> pyval list -> dreq -> dtype)
-  -> aobj -> ckind -> z list -> bool -> dreq -> operand -> char list list ->
-  (char list * operand) list -> res
+  -> char list list -> aobj -> ckind -> z list -> bool -> dreq -> operand ->
+  char list list -> (char list * operand) list -> res
 
 val alias_step : aobj -> op -> state -> res
 
 val alias_init_model :
-  aobj -> ckind -> z list -> bool -> dreq -> operand -> char list list ->
-  (char list * operand) list -> res
+  char list list -> aobj -> ckind -> z list -> bool -> dreq -> operand ->
+  char list list -> (char list * operand) list -> res
 
 val getitem : key -> state -> pyval list outcome
 
